@@ -142,8 +142,14 @@ class Enc:
         return name
 
     def define(self, prefix, expr):
-        nm = self.fresh(prefix)
-        self.lines.append("(define-fun %s () %s %s)" % (nm, BV, expr))
+        # interned: one name per distinct expression
+        if not hasattr(self, "_interned"):
+            self._interned = {}
+        nm = self._interned.get(expr)
+        if nm is None:
+            nm = self.fresh("t")
+            self.lines.append("(define-fun %s () %s %s)" % (nm, BV, expr))
+            self._interned[expr] = nm
         return nm
 
     def uf(self, name, arity):
@@ -159,14 +165,11 @@ class Enc:
             return "(%s %s)" % (self.uf("g_" + base, 1), a)
         if self.fp and base in CHOICE_BASE:
             return "(k_%s %s %s)" % (CHOICE_BASE[base], a, b)
-        if base in COMMUTATIVE_UF:
-            # commutative uninterpreted function: applied to the operands in
-            # canonical (unsigned) order, so f(a,b) = f(b,a) holds in every model
-            if a == b:
-                return "(%s %s %s)" % (self.uf("g_" + base, 2), a, b)
-            lo = "(ite (bvule %s %s) %s %s)" % (a, b, a, b)
-            hi = "(ite (bvule %s %s) %s %s)" % (a, b, b, a)
-            return "(%s %s %s)" % (self.uf("g_" + base, 2), lo, hi)
+        if base in COMMUTATIVE_UF and b < a:
+            # commutative: canonical operand order.  Definitions are interned
+            # (structurally equal terms share one name, see `define`), so the
+            # order is the same on both sides of a comparison.
+            a, b = b, a
         return "(%s %s %s)" % (self.uf("g_" + base, 2), a, b)
 
     def sem(self, name, a, b=None):
